@@ -30,6 +30,7 @@ import (
 )
 
 const secret = "s3cret"
+
 // RADIUS client timeout of the worker: a dropped request costs one timeout.  Generous, because the
 // machine is shared: a reply that the client misses through scheduler starvation would look like
 // an outage the scripted server did not order.  Runs in which that is detected are repeated; the
@@ -259,12 +260,12 @@ type heldPkt struct {
 	w    Wrec
 }
 type server struct {
-	conn *net.UDPConn
-	mu   sync.Mutex
-	down map[[2]int]bool
-	log  []Ev
-	hold int // >0: collect this many requests, then answer only the first (by session) that is not down
-	held []heldPkt
+	conn  *net.UDPConn
+	mu    sync.Mutex
+	down  map[[2]int]bool
+	log   []Ev
+	hold  int // >0: collect this many requests, then answer only the first (by session) that is not down
+	held  []heldPkt
 	fence chan struct{}
 	seen  map[[16]byte]bool // authenticators already handled (a retransmission is answered like the original, not logged again)
 }
